@@ -1,3 +1,8 @@
+import Varint.Lemmas.Dict
+import Varint.Lemmas.Elias
+import Varint.Lemmas.PFOR
+import Varint.Lemmas.RLEH
+import Varint.Lemmas.Group
 import Varint.Lemmas.Delta
 import Varint.Lemmas.RLE
 import Varint.Lemmas.FOR
@@ -42,6 +47,80 @@ theorem for_getAt (xs : List Nat) (g : FOR.Good xs) (i : Nat) (hi : i < xs.lengt
 theorem rle_roundtrip (xs : List Nat) (hx : U64s xs) (hn : xs.length < 2 ^ 64) (rest : List Nat) :
     RLE.dec (RLE.enc xs ++ rest) xs.length = some xs :=
   RLE.dec_enc xs hx hn rest
+
+
+/-! ## group varint (1–64 fields) -/
+
+/-- group: decode(encode) returns the fields and the number of bytes consumed = bytes written;
+    whatever follows the encoding is irrelevant -/
+theorem group_roundtrip (xs : List Nat) (h : Group.Ok xs) (cap : Nat) (hcap : xs.length ≤ cap) (rest : List Nat) :
+    Group.dec (Group.enc xs ++ rest) cap = some (some (xs, (Group.enc xs).length)) :=
+  Group.dec_enc xs h cap hcap rest
+
+/-- group random access returns the field the full decoder returns, and stays inside the encoding -/
+theorem group_getField (xs : List Nat) (h : Group.Ok xs) (i : Nat) (hi : i < xs.length) (rest : List Nat) :
+    ∃ n, Group.getField (Group.enc xs ++ rest) i = some (some (xs.getD i 0, n)) ∧ n ≤ (Group.enc xs).length :=
+  Group.getField_enc xs h i hi rest
+
+/-! ## run-length with count header, random access -/
+
+theorem rleh_roundtrip (xs : List Nat) (hx : U64s xs) (hn : xs.length < 2 ^ 64) (cap : Nat)
+    (hcap : xs.length ≤ cap) (rest : List Nat) :
+    RLE.decH (RLE.encH xs ++ rest) cap = some (some xs) :=
+  RLE.decH_encH xs hx hn cap hcap rest
+
+theorem rle_getAt (xs : List Nat) (hx : U64s xs) (hn : xs.length < 2 ^ 64) (i : Nat) (hi : i < xs.length)
+    (rest : List Nat) : RLE.getAt (RLE.enc xs ++ rest) i = some (xs.getD i 0) :=
+  RLE.getAt_enc xs hx hn i hi rest
+
+
+/-! ## patched frame-of-reference, at EVERY threshold percentage -/
+
+theorem pfor_roundtrip (xs : List Nat) (g : PFOR.Good xs) (t : Nat) (rest : List Nat) :
+    PFOR.dec (PFOR.enc xs t ++ rest) = some xs :=
+  PFOR.dec_enc xs g t rest
+
+
+/-! ## Elias gamma / delta (values ≥ 1): for EVERY declared bit count between the exact number of code
+    bits and the whole last byte (the zero padding decodes as "no more values") and for every capacity
+    (a smaller capacity yields the correct prefix) -/
+
+theorem elias_gamma_roundtrip (xs : List Nat) (h : Elias.Pos64 xs) (srcBits cap : Nat)
+    (hlo : (xs.flatMap Elias.gamma).length ≤ srcBits) (hhi : srcBits ≤ 8 * (Elias.encGamma xs).length) :
+    Elias.decGamma (Elias.encGamma xs) srcBits cap = some (xs.take cap) :=
+  Elias.decGamma_enc_gen xs h srcBits cap hlo hhi
+
+theorem elias_delta_roundtrip (xs : List Nat) (h : Elias.Pos64 xs) (srcBits cap : Nat)
+    (hlo : (xs.flatMap Elias.delta).length ≤ srcBits) (hhi : srcBits ≤ 8 * (Elias.encDelta xs).length) :
+    Elias.decDelta (Elias.encDelta xs) srcBits cap = some (xs.take cap) :=
+  Elias.decDelta_enc_gen xs h srcBits cap hlo hhi
+
+/-- the byte-granular call with room for everything returns the whole array -/
+theorem elias_roundtrip_bytes (xs : List Nat) (h : Elias.Pos64 xs) (cap : Nat) (hcap : xs.length ≤ cap) :
+    Elias.decGamma (Elias.encGamma xs) (8 * (Elias.encGamma xs).length) cap = some xs ∧
+    Elias.decDelta (Elias.encDelta xs) (8 * (Elias.encDelta xs).length) cap = some xs :=
+  ⟨Elias.decGamma_enc_bytes xs h cap hcap, Elias.decDelta_enc_bytes xs h cap hcap⟩
+
+
+/-! ## dictionary (both decoders): for every array the encoder ACCEPTS (`enc xs ≠ []`, which is exactly
+    "non-empty and at most 2^20 distinct values") -/
+
+theorem dict_accepts_iff (xs : List Nat) : Dict.enc xs ≠ [] ↔ xs ≠ [] ∧ (Dict.build xs).length ≤ Dict.maxDict :=
+  Dict.enc_ne_nil_iff xs
+
+/-- `varintDictDecode` (allocating) and `varintDictDecodeInto` with room for everything -/
+theorem dict_roundtrip (xs : List Nat) (hx : U64s xs) (hn : xs.length < 2 ^ 64) (h : Dict.enc xs ≠ []) (rest : List Nat) :
+    Dict.dec (Dict.enc xs ++ rest) none = some xs ∧
+    ∀ cap, xs.length ≤ cap → Dict.dec (Dict.enc xs ++ rest) (some cap) = some xs :=
+  ⟨Dict.dec_enc xs hx hn h rest, fun cap hc => Dict.dec_enc_cap xs hx hn h rest cap hc⟩
+
+/-- the dictionary is the sorted duplicate-free set of the input values and every value is found in it -/
+theorem dict_build_spec (xs : List Nat) :
+    List.Pairwise (· < ·) (Dict.build xs) ∧ (∀ x, x ∈ Dict.build xs ↔ x ∈ xs) ∧
+    (Dict.build xs).length ≤ xs.length ∧
+    ∀ x ∈ xs, ∃ i, Dict.find (Dict.build xs) x = some i ∧ i < (Dict.build xs).length ∧ (Dict.build xs)[i]? = some x :=
+  ⟨Dict.build_pairwise xs, Dict.mem_build xs, Dict.build_length_le xs,
+   fun x hx => Dict.find_mem _ (Dict.build_pairwise xs) x ((Dict.mem_build xs x).mpr hx)⟩
 
 /-- non-vacuity -/
 example : FOR.Good [100, 200, 300] := ⟨by decide, by decide, by decide⟩
